@@ -76,7 +76,9 @@ def binding_cases():
 def substitution_cases():
     """polynomial substitution: every indeterminate is given a scalar (0-d) polynomial"""
     return [("D1.poly_positional", 1, (0,), {}), ("D1.poly_keyword", 1, (), {"q0": 0}), ("D2.poly_positional", 2, (0, 1), {}),
-            ("D2.poly_mixed", 2, (0,), {"q1": 1})]
+            ("D2.poly_mixed", 2, (0,), {"q1": 1}),
+            # partial evaluation: an indeterminate that is given nothing (or a None placeholder) stands for itself
+            ("D2.poly_partial_first", 2, (0,), {}), ("D2.poly_partial_keyword", 2, (), {"q1": 1}), ("D2.poly_partial_placeholder", 2, (None, 1), {})]
 
 
 class PolyOuter:
@@ -207,7 +209,9 @@ class Call(Contract):
                     ctx.assume(q.wf(ctx))
                     ctx.assume(ctx.forall_range(0, q.N, lambda t, q=q: keyok(q.row(t), q.D)))
                     subs.append(q)
-                vs = [q.val(the_idx(shp0)) for q in subs]
+                from engine.polymodel import pvar
+                given = {v for v in args if v is not None} | {v for v in kwargs.values()}
+                vs = [subs[d].val(the_idx(shp0)) if d in given else pvar(nat(P.names, d)) for d in range(D)]
                 x = z3.Const(ctx.fresh("x"), PV)
                 ctx.assume(z3.And(pconst(z3.RealVal(1)) == pone, z3.ForAll([x], pmul(pone, x) == x)))
                 SP = ctx.func("SP", I, Idx, PV)
@@ -224,7 +228,7 @@ class Call(Contract):
                 ctx.assume(unfold_at(1))
                 ex.ghost = {"P": P, "SP": SP, "subs": subs}
                 ex.hooks = {}
-                return {"poly": P, "args": tuple(subs[v] for v in args),
+                return {"poly": P, "args": tuple(None if v is None else subs[v] for v in args),
                         "kwargs": {n: subs[v] for n, v in kwargs.items()}}
 
             def check(out):
